@@ -42,6 +42,8 @@ def check(ctx):
     ctx.attempt(config_separators)
     ctx.attempt(decompiled_text_is_typed)
     ctx.attempt(one_setting_sets_itself)
+    # the keyword and the config channel of a setting give the same lots / QQs (no de-duplication on one of them)
+    ctx.attempt(common.dedup_idioms, [f for f in ctx.repo.funcs.values() if f.module.name.endswith(('tract.tract_parse', 'tract.tract'))])
     ctx.attempt(word_dispatch)
     from .c14 import parse_not_gated          # config_tracts() / a new .config must take effect on the next parse_tracts()
     ctx.attempt(parse_not_gated, rule='LOCK')
@@ -318,6 +320,17 @@ def lockdown(ctx, fi, only=None, rule='LOCK', source='self'):
             mentions_p = any(_re.search(rf"(?<![\w.]){_re.escape(p)}\b", t) for t, pol in gs)
             bad = not gs or given or not mentions_p
             n += 1
+            # ... and ALWAYS when it is not given: a further condition on the object's state means the
+            # attribute (set by config / assignment after creation) is ignored in the other state
+            extra = [t for t, pol in gs if not _re.search(rf"(?<![\w.]){_re.escape(p)}\b", t) and f"{source}." in t]
+            if ok and extra:
+                n += 1
+                ctx.violation(rule, f"{fi.qualname}: `{p} = {source}.{p}` whenever the argument is not given",
+                              f"the fall-back `{norm(x)}` additionally requires `{extra[0]}`: when that does not hold, the value held "
+                              f"in {source}.{p} (set through .config, a Config object or by assignment after creation) is silently "
+                              f"ignored although no argument overrides it", key=f"{rule}|{fi.qualname}|fallback-extra|{p}",
+                              where=common.loc(fi, x))
+                continue
             ctx.tri(ok, bad and not ok, rule, f"{fi.qualname}: `{p} = {source}.{p}` only when the argument is not given",
                     detail_bad=f"`{norm(x)}` runs under {gs or 'no condition'}, which does not ask whether `{p}` was given: "
                                f"the attribute overrides a given argument",
@@ -711,6 +724,22 @@ def decompiled_text_is_typed(ctx, rule='TBL'):
                       key=f"{rule}|Config.decompile_to_text|free-text|{free[0].attr if free else ''}", where=common.loc(fi, c))
     if n == 0:
         ctx.undecided(rule, construct, 'no piece is appended')
+    # ... and it walks the COMPLETE table of settings: what the loop leaves out is lost by str(cfg),
+    # Config(cfg) and the text round trip
+    g = lambda a: set(ctx.fold.get_attr('config.config', 'Config', a))
+    want = g('_PLSSDESC_ATTRIBUTES') | g('_TRACT_ATTRIBUTES')
+    loops = [l for l in walk_local(fi.node) if isinstance(l, ast.For)]
+    covered = set()
+    for lp in loops:
+        v = common.fold_in_func(ctx, fi, lp.iter)
+        if isinstance(v, (tuple, list)) and all(isinstance(x, str) for x in v):
+            covered |= set(v)
+    if loops and covered:
+        missing = sorted(want - covered)
+        ctx.check(not missing, rule, 'Config.decompile_to_text writes every setting',
+                  detail_bad=f"the loop of decompile_to_text covers {len(covered)} settings and leaves out {missing}: a Config that holds one of "
+                             f"them loses it in its own text form (str(cfg), Config(cfg), the config handed on as text)",
+                  key=f"{rule}|Config.decompile_to_text|incomplete|{','.join(missing)}", where=common.loc(fi, loops[0]))
 
 
 def _direction_writer(ctx):
